@@ -132,6 +132,26 @@ func verif_getVhost(rp *HTTPReverseProxy, domain, location, routeByHTTPUser stri
 	}
 }
 
+// The wildcard walk of getVhost ("longer wildcard suffix before shorter", no
+// candidate skipped): the label list walked is the full list of dot-separated
+// labels of the request host, and every step drops exactly the leading label -
+// at every iteration the labels after the first are the corresponding labels of
+// strings.Split(host, "."), so the walk ends only when fewer than three labels
+// are left.
+//
+//verif:loop (*~/pkg/util/vhost.HTTPReverseProxy).getVhost 1 inv=verifLoopWildcardWalk args=domainSplit,domain@entry
+func verifLoopWildcardWalk(domainSplit []string, domain0 string, j int) bool {
+	parts := strings.Split(domain0, ".")
+	off := len(parts) - len(domainSplit)
+	if off < 0 {
+		return false
+	}
+	if j < 1 || j >= len(domainSplit) {
+		return true
+	}
+	return domainSplit[j] == parts[off+j]
+}
+
 // Host canonicalisation is a deterministic function of the host text; its own
 // behaviour is specified in the C06 units.
 //
